@@ -116,3 +116,71 @@ def alias_is_class(rep: Report, rid: str, prog: Program, module: str, alias: str
         rep.ok(rid)
     else:
         rep.fail(rid, f"alias|{alias}", f"{module}:{alias} is not (a subclass of) {target}: an operation raising the documented alias would not be caught by `except {target}`", where=m.relpath, function=f"{module}:{alias}")
+
+
+MEMO_DECORATORS = ("lru_cache", "cache", "cached_property")
+IMPURE_PREFIXES = ("time.", "datetime.", "random.", "os.", "secrets.", "uuid.")
+
+
+def _memo_decorator(fn_node: ast.AST) -> str | None:
+    for d in getattr(fn_node, "decorator_list", []):
+        f = d.func if isinstance(d, ast.Call) else d
+        name = ast.unparse(f).split(".")[-1]
+        if name in MEMO_DECORATORS:
+            return name
+    return None
+
+
+def memo_is_pure(rep: Report, rid: str, prog: Program, module_prefixes: tuple[str, ...]) -> None:
+    """every memoised function / cached property in the given modules is a function of its arguments only: nothing it
+    reaches reads a clock, a random source or a mutable attribute (zero-count rule: the library memoises nothing today;
+    the recogniser is exercised on a built-in positive example on every run)"""
+    # positive example: the recogniser must see through this shape
+    sample = ast.parse("import functools\n@functools.lru_cache(maxsize=8)\ndef f(x):\n    return x\nclass C:\n    @cached_property\n    def p(self):\n        return 1\n")
+    if [_memo_decorator(n) for n in ast.walk(sample) if isinstance(n, ast.FunctionDef)] != ["lru_cache", "cached_property"]:
+        raise AnalysisError(f"{rid}: memoisation recogniser out of date")
+    n_funcs = 0
+    for fi in prog.funcs.values():
+        if not fi.module.name.startswith(module_prefixes) or isinstance(fi.node, ast.Lambda):
+            continue
+        n_funcs += 1
+        deco = _memo_decorator(fi.node)
+        if deco is None:
+            continue
+        rep.instance(rid, f"memo|{fi.qual}|{deco}")
+        seen: set[str] = set()
+        todo = [fi]
+        problem = None
+        while todo and problem is None:
+            g = todo.pop()
+            if g.qual in seen:
+                continue
+            seen.add(g.qual)
+            for n in prog._own_nodes(g.node):
+                if isinstance(n, ast.Call):
+                    for t in prog.resolve_call(n, g):
+                        if t.kind == "repo" and t.func is not None:
+                            todo.append(t.func)
+                        elif t.kind == "lib" and (t.name or "").startswith(IMPURE_PREFIXES):
+                            problem = f"reaches `{t.name}` (in {g.qual})"
+                        elif t.kind == "callback":
+                            problem = f"calls the user callable `{t.category}` (in {g.qual})"
+                elif deco == "cached_property" and g is fi and isinstance(n, ast.Attribute) and isinstance(n.value, ast.Name) and n.value.id == (fi.positional_params() or ["self"])[0] and isinstance(n.ctx, ast.Load):
+                    # a cached property freezes whatever it read from the object the first time
+                    ci = fi.cls
+                    init_only = ci is not None and all(
+                        w.name == "__init__"
+                        for w in ci.methods.values()
+                        for x in prog._own_nodes(w.node)
+                        if isinstance(x, ast.Attribute) and isinstance(x.ctx, ast.Store) and x.attr == n.attr
+                    )
+                    if not init_only:
+                        problem = f"reads `self.{n.attr}`, which is written after construction"
+        if problem:
+            rep.fail(rid, f"memo|{fi.qual}|{problem[:40]}", f"{fi.qual} is memoised ({deco}) but {problem}: a later call / read gets the value computed the first time", where=fi.where(), function=fi.qual)
+        else:
+            rep.ok(rid)
+    rep.instance(rid, f"memo|scanned|{'/'.join(module_prefixes)}", {"functions": n_funcs})
+    if n_funcs < 3:
+        raise AnalysisError(f"{rid}: only {n_funcs} functions under {module_prefixes}")
+    rep.ok(rid)
